@@ -68,6 +68,7 @@ PathQ(w) == WithC(SelQ(<<I(A), I(Col("n"))>>, T, w), SelQ(<<Star>>, PathFrom, No
 \* ---- subqueries against the current row / the enclosing document
 NQ(sel, w) == SelQ(sel, Table(<<"n">>, ""), w)
 P == Col("p")
+RA == ColP(<<"r", "a">>)
 Subs == { SelQ(<<I(A), Item(Sub(NQ(<<I(P)>>, None)), "s")>>, T, None),
           SelQ(<<I(A), Item(Sub(NQ(<<I(P)>>, CmpE(">", P, LN(1)))), "s")>>, T, None),
           SelQ(<<I(A), Item(Sub(NQ(<<Item(Agg("count", <<>>), "k")>>, None)), "s")>>, T, None),
@@ -87,7 +88,11 @@ Subs == { SelQ(<<I(A), Item(Sub(NQ(<<I(P)>>, None)), "s")>>, T, None),
           SelQ(<<I(A)>>, T, Exists(NQ(<<Star>>, CmpE(">", P, LN(1))))),
           SelQ(<<I(A)>>, T, Exists(NQ(<<Star>>, CmpE(">", P, A)))),
           SelQ(<<I(A)>>, T, NotE(Exists(NQ(<<Star>>, CmpE(">", P, A))))),
-          SelQ(<<I(A)>>, T, AndE(Exists(NQ(<<Star>>, None)), CmpE(">", A, LN(1)))) }
+          SelQ(<<I(A)>>, T, AndE(Exists(NQ(<<Star>>, None)), CmpE(">", A, LN(1)))),
+          \* the outer table under an alias: the predicate of the EXISTS subquery reaches the outer row's columns through it
+          SelQ(<<I(RA)>>, Table(<<"t">>, "r"), Exists(SelQ(<<Star>>, Table(<<"r", "n">>, ""), CmpE(">", P, RA)))),
+          SelQ(<<I(RA)>>, Table(<<"t">>, "r"), NotE(Exists(SelQ(<<Star>>, Table(<<"r", "n">>, ""), CmpE(">", P, RA))))),
+          SelQ(<<I(RA)>>, Table(<<"t">>, "r"), Exists(SelQ(<<Star>>, Table(<<"<-", "u">>, ""), CmpE(">=", Col("c"), RA)))) }
 
 \* two sibling derived tables, each with a WITH of its own (both sides of a join; both branches of a union)
 WithQ(name, tbl, col) == [SelQ(<<I(Col(col))>>, Table(<<name>>, ""), None) EXCEPT !.with = <<[name |-> name, q |-> SelQ(<<I(Col(col))>>, Table(<<tbl>>, ""), None)]>>]
